@@ -120,17 +120,28 @@ def valence (r : List Int) : Nat := (r.filter (fun x => x != FILL)).length
 def keptNodes (NF : Table) : List Nat :=
   (List.range NF.length).filter (fun i => decide (3 ≤ valence (rowAt NF i)))
 
-/-- the row built for node `i`: `temp_face = nfc[i][0:n_edges[i]]`, ordered from its first entry.
+/-- the faces gathered for one node.  As found: `nfc[i][0 : n_edges[i]]` — the first `n_edges`
+    entries, which are the node's faces only when the row is padded at the end.  Repaired
+    (`fixes/C18-node-face-padding.patch` = /repo commit b97cc1ce): `row[row != FILL]`, the non-padding entries wherever the
+    padding is (source-supplied tables, e.g. MPAS `cellsOnVertex`, pad anywhere). -/
+def gatherRow (filt : Bool) (r : List Int) : List Int :=
+  if filt then real r else r.take (valence r)
+
+/-- the row built for node `i`: the gathered faces, ordered from the first one.
     `keyOf i first f` is `d_angles` of face `f` (entries that are `FILL` keep `d_angles = 0`). -/
-def dualRow {K : Type} (lt : K → K → Bool) (zero twoPi : K) (keyOf : Nat → Int → Int → K)
-    (W i : Nat) (r : List Int) : List Int :=
-  match r.take (valence r) with
+def dualRowWith (filt : Bool) {K : Type} (lt : K → K → Bool) (zero twoPi : K)
+    (keyOf : Nat → Int → Int → K) (W i : Nat) (r : List Int) : List Int :=
+  match gatherRow filt r with
   | [] => List.replicate W FILL
   | first :: rest =>
     if first != FILL then
       orderNodes lt zero twoPi W first
         (rest.map (fun f => (if f != FILL then keyOf i first f else zero, f)))
     else List.replicate W FILL
+
+/-- the repaired algorithm -/
+def dualRow {K : Type} (lt : K → K → Bool) (zero twoPi : K) (keyOf : Nat → Int → Int → K)
+    (W i : Nat) (r : List Int) : List Int := dualRowWith true lt zero twoPi keyOf W i r
 
 /-- the loop of `construct_faces`, literally: a pre-allocated table of `np.sum(n_edges > 2)` rows
     of `FILL`, row `i - correction` overwritten for every node with at least three faces. -/
@@ -155,8 +166,8 @@ def keyOfGeom (R : Num K) (repaired : Bool) (nodes cents : List (V3 K)) (i : Nat
   keyWith R repaired (vecAt nodes (Int.ofNat i)) (vecAt cents first) (vecAt cents f)
 
 /-- `construct_dual` on coordinates -/
-def constructDual (R : Num K) (repaired : Bool) (nodes cents : List (V3 K)) (NF : Table) : Table :=
-  constructFaces (dualRow R.lt 0 R.twoPi (keyOfGeom R repaired nodes cents)) NF
+def constructDual (R : Num K) (repaired filt : Bool) (nodes cents : List (V3 K)) (NF : Table) : Table :=
+  constructFaces (dualRowWith filt R.lt 0 R.twoPi (keyOfGeom R repaired nodes cents)) NF
 
 end full
 
